@@ -1,44 +1,70 @@
-"""C04 — UKF steps coincide with the Kalman filter on linear-Gaussian models (DESIGN.md §5 C04)."""
+"""C04 — UKF steps coincide with the Kalman filter on linear-Gaussian models (DESIGN.md §5 C04).
+
+A case is ONE UKFPrediction resp. ONE UKFCorrection object driven through 1..4 calls.  Between the calls the live
+model's F / B / Q / exogenous input resp. H / D / R / y change (through setters, setSamplingTime, a move of the object)
+or stay, the belief changes, its component count changes or stays; every call is compared with the stateless
+model (the extracted Coq model applied to the operands of that call; the correction model threads only the state kept
+for getLikelihood) and with the Kalman step of the implementation (the property)."""
 import math
 import numpy as np
 from vlib import caseio, gen
 
 ID = "C04"
-COQ_TARGETS = ["C04_Extract.vo", "C04_Proofs.vo", "UT_Transport.vo", "C03_Transport.vo", "C04_Transport.vo", "C05_Transport.vo"]
+COQ_TARGETS = ["C04_Extract.vo", "C04_Proofs.vo", "C04_Seq.vo", "UT_Transport.vo", "C03_Transport.vo", "C04_Transport.vo", "C05_Transport.vo"]
 EXTRA_PROPERTIES = ["Transport"]   # Properties_Transport.v: the unscented steps executed at the list instance represent the MathComp instance of the theorems
 COQ_PREFIXES = ["C04", "C03", "C01", "C02"]
 EXTRACTED = "C04_model"
 DRIVER = "drv_C04.ml"
 HARNESS = "h_C04.cpp"
-VARIANTS = {"quick": ["O1"], "thorough": ["O1", "asan"]}
+VARIANTS = {"quick": ["O1", "assert"], "thorough": ["O1", "assert", "asan"]}   # assert: Eigen assertions on (shape / index slips that NDEBUG hides)
 AXIOMS_ALLOWED = []
 REQUIRED_THEOREMS = ["C04_predict_additive", "C04_predict_augmented", "C04_predict_additive_exogenous", "C04_kf_predict_is_C02",
                      "C04_kf_predict_mean_is_C02", "C04_correct_additive", "C04_correct_augmented",
                      "C04_likelihood_additive", "C04_likelihood_augmented", "C04_innovation_cov_invertible",
                      "C04_skip_is_identity", "C04_no_measurement_is_identity", "C04_unusable_measurement_is_identity",
+                     "C04_correct_history_independent", "C04_unskipped_calls_are_fresh_calls",
                      "C04_transport_kf_predict",
                      "Transport_oracle_counterpart_exists", "Transport_C03_weights", "Transport_C03_sigma_points", "Transport_C03_ut_generic", "Transport_C03_ut_state", "Transport_C03_ut_additive_state", "Transport_C03_ut_meas", "Transport_C03_ut_additive_meas", "Transport_model_functions_correspond", "Transport_C04_ukf_predict_additive", "Transport_C04_ukf_predict_generic", "Transport_C04_ukf_correct_additive", "Transport_C04_ukf_correct_generic", "Transport_C04_ukf_likelihood", "Transport_C04_Pyy_invertible_linear"]
-RULE = ("cases drawn from one seeded stream: kinds predict / correct, additive and generic (noise-input, augmented) constructors, "
-        "n in 1..5, m in 1..3 (also m > n), noise inputs q in 1..3, components 1..3, P_i PSD incl. rank-deficient and zero (prediction and correction; SPD ones with chosen "
+RULE = ("one UKFPrediction / UKFCorrection object per case (additive and generic = noise-input, augmented constructors) driven through 1..4 calls (55% multi-call); between calls the live model "
+        "keeps or changes F / B / Q / exogenous input resp. H / D / R / y (all, or only one of them) through setters, StateModel::setSamplingTime, a move construction or move assignment of the object, "
+        "the belief changes (or stays), its component count stays (70%) or changes, the measurement size stays or changes, with update_weights_online also the state / noise sizes; "
+        "30% of the cases run an independent twin object inside every model callback (re-entrancy); 40-50% of the objects under test are not the constructed one but move-constructed from a fresh or an already used object, UKFPrediction also move-assigned (over an object holding another model); "
+        "n in 1..5, m in 1..3 (also m > n), noise inputs q in 1..3, components 1..3, P_i PSD incl. rank-deficient and zero (SPD ones with chosen "
         "condition number <= 1e4), F random / singular / identity, H random / rank-deficient / zero row / selector / zero, B, D random incl. rank-deficient, "
-        "R SPD, alpha in [0.1,2], beta in [0,3], kappa in [0,3]; constant exogenous input on the additive state model, output object of another shape, measurement descriptions that declare noise components, skip flags, missing measurement, failing prediction, each also after an earlier successful correction by the same object; "
-        "non-trivial = components >= 2 or generic or rank-deficient H/F or singular P or an early-return path; "
-        "distinct by (kind, generic, n, m, q, comps, matrix kind, path)")
+        "R SPD, alpha in [0.1,2], beta in [0,3], kappa in [0,3]; physical units: homogeneous state unit 1e-5..1e4, measurement unit 1e-3..1e3, noise-input unit ratio 10^+-1.5, "
+        "coordinate-wise factors 10^+-1.5 on state and measurement rows (tolerances carried by the homogeneous units, norm-based for the others); "
+        "30% of the objects have 1..2 Euler-circular state rows in the regimes where a linear model is transformed exactly (C03's Euler exactness: structured F / H, small spreads; or no sigma point wraps); "
+        "constant exogenous input on the additive state model, output object of another shape, correct(g, g) with the output object being the input object (8% of the calls), measurement descriptions that declare noise components, skip flags, missing measurement, failing predicted measurement, failing innovation at any call; "
+        "non-trivial = several calls or components >= 2 or generic or rank-deficient H/F or singular P or an early-return path or circular rows; "
+        "distinct by (kind, generic, n, circ, q, steps, hows, paths, component counts, matrix kinds)")
 TRUSTED_BASE = ["Coq 8.16.1 kernel (coqc); no axioms (Print Assumptions: closed under the global context)",
                 "MathComp 1.15 matrix theory",
-                "extraction (ExtrOcamlBasic only) and ocaml/float_ops.ml, ocaml/drv_C04.ml (incl. its Jacobi eigen-iteration used as square-root oracle), ocaml/caseio.ml",
+                "extraction (ExtrOcamlBasic only) and ocaml/float_ops.ml, ocaml/drv_C04.ml (incl. its Jacobi eigen-iteration used as square-root oracle, and its loop over the calls of a case), ocaml/caseio.ml",
                 "ListOps list instance of MatOps: proved to compute the MathComp operations on well-formed inputs over any realFieldType, incl. the Gauss-Jordan inverse/determinant on invertible inputs (ListOpsCorrect.v, ListGauss.v); the unscented steps executed at the list instance are proved to represent the MathComp instance the theorems are about (UT_Transport.v, C03_/C04_/C05_Transport.v; the theorems of Properties_Transport.v are obligations of this check), under per-call premises: the list-level and the matrix-level square-root / eigenvector oracles correspond on the matrices actually passed, the model functions map corresponding columns to corresponding columns, and the inverted matrices (the predicted measurement covariances Pyy_i) are invertible at the MathComp instance (derived for linear measurement models with SPD noise: Transport_C04_Pyy_invertible_linear); what remains between executed model and theorem model is IEEE rounding and the oracle correspondence",
-                "cpp/h_C04.cpp harness and its linear models; comparison tolerances rtol 1e-7 * cond + 1e-12 * max|weight| (UKF vs KF), 1e-9 * cond + 1e-12 * max|weight| (implementation vs model)",
+                "cpp/h_C04.cpp harness and its linear, time-varying models; comparison tolerances rtol 1e-8 * cond + 1e-12 * max|weight| (UKF vs KF), 1e-9 * cond + 1e-12 * max|weight| (implementation vs model), in the case's homogeneous units",
+                "states with Euler-circular rows: the theorems of Properties_C04.v are stated for plain layouts; that the unscented steps coincide with the Kalman ones on the generated circular cases rests on C03's Euler exactness theorems (Properties_C03_Real.v, over Coq's reals) for the structured class and on the observation that no wrap occurs for the other class; both classes are also run through the extracted model",
                 "correspondence is sampled: agreement is established on the generated cases only",
                 "IEEE rounding is not modelled (theorems over an exact real field)"]
 ASSUMPTIONS = ["square-root oracle: P symmetric PSD => A A^T = P (Eigen jacobiSvd; checked on the implementation's sigma points by C03, on the model side here)",
                "sqrt oracle: 0 <= c => sqrt c * sqrt c = c",
                "Eigen inverse()/determinant() behave as matrix inverse/determinant up to rounding",
-               "linear measurement description (m linear, no circular components; declared noise components are allowed and irrelevant: the cross-covariance is sliced by predicted_meas_.dim_covariance); quaternion states/measurements are outside C04"]
+               "linear measurement description (m linear, no circular components; declared noise components are allowed and irrelevant: the cross-covariance is sliced by predicted_meas_.dim_covariance); quaternion states/measurements are outside C04",
+               "a linear model on a state with Euler-circular rows is 'linear-Gaussian' only where the circle does not matter: circular rows read by linear rows / with real coefficients are admitted only while no sigma point wraps, otherwise the model must not read circular rows from linear ones and must map circular rows to circular rows with integer coefficients; spreads on circular rows below half a turn and circular variances below 2 (positive resultant); everything else on circular rows is outside C04 (C03 / C19 territory)",
+               "a moved-from / moved-to UKFCorrection does not keep the likelihood state (its move constructor does not transfer it): a skipped correction is never generated right after a move"]
 
-COUNTS = {"quick": 300, "thorough": 8000}
+COUNTS = {"quick": 1000, "thorough": 12000}
+SEARCH_CASES = 1500
+PI = math.pi
+# relative tolerances per unit of the call's conditioning figure `cond` (see predict_step / correct_step).  Calibrated on
+# 6000 generated cases (39000 compared means / covariances, all classes: units, coordinate factors, circular rows,
+# rank-deficient data): the largest observed |ukf - kf| is 6e-12 * cond * magnitude (median 1e-20 * cond * magnitude), the
+# largest observed |impl - model| 7e-12 * cond * magnitude; the figures below keep a margin of 1700x resp. 140x over that.
+R_ORACLE = 1e-8
+R_MODEL = 1e-9
 
 
+# --------------------------------------------------------------------------------------------------------------
+# generators
 def ut_params(rng):
     alpha = rng.choice([0.1, 1.0, 2.0, rng.uniform(0.1, 2.0), rng.uniform(0.1, 2.0)])
     beta = rng.choice([0.0, 2.0, rng.uniform(0.0, 3.0)])
@@ -60,86 +86,341 @@ def rect(rng, r, c):
     return np.zeros((r, c)), "zero"
 
 
-def gen_case(rng, k):
-    kind = rng.choice(["predict", "correct", "correct"])
-    generic = rng.randint(0, 1)
-    n = rng.randint(1, 5); comps = rng.randint(1, 3)
-    m = rng.randint(1, 3)
-    q = rng.randint(1, 3) if generic else 0
-    if generic and kind == "correct":
-        q = rng.randint(m, 3)      # D (m x q) of full row rank, so that D Rv D^T is SPD for the equivalent Kalman step
-    alpha, beta, kappa = ut_params(rng)
-    means = gen.matrix(rng, n, comps, 3.0)
-    w = np.array([rng.random() + 0.1 for _ in range(comps)]); w = w / w.sum()
-    meta = {"kind": kind, "generic": generic, "n": n, "q": q, "comps": comps,
-            "alpha": "%.4g" % alpha, "beta": "%.4g" % beta, "kappa": "%.4g" % kappa}
-    c = caseio.Case(k, kind, meta)
-    c.int("n", n).int("q", q).int("generic", generic).mat("params", np.array([[alpha, beta, kappa]]))
-    if kind == "predict":
-        covs, sing = [], 0
-        for i in range(comps):
-            rank = rng.choice([n, n, n, max(0, n - 1), 0])
-            covs.append(gen.psd(rng, n, rank)); sing = max(sing, n - rank)
+def factors(rng, k, span=1.5):
+    """coordinate-wise unit factors: none / one common factor / one factor per coordinate"""
+    r = rng.random()
+    if r < 0.7:
+        return np.ones(k)
+    if r < 0.8:
+        return np.full(k, 10.0 ** rng.uniform(-span, span))
+    return np.array([10.0 ** rng.uniform(-span, span) for _ in range(k)])
+
+
+def norm2(a):
+    return float(np.linalg.norm(a, 2)) if a.size else 0.0
+
+
+def blockdiag(a, b):
+    n, q = a.shape[0], b.shape[0]
+    o = np.zeros((n + q, n + q)); o[:n, :n] = a; o[n:, n:] = b
+    return o
+
+
+class Obj:
+    """what is fixed for the object under test"""
+    pass
+
+
+def draw_object(rng, kind):
+    o = Obj()
+    o.kind = kind
+    o.generic = rng.randint(0, 1)
+    o.n = rng.randint(1, 5)
+    o.circ = 0 if rng.random() < 0.7 else rng.randint(1, min(2, o.n))
+    o.regime = rng.choice(["euler", "nowrap"]) if o.circ else "-"
+    o.q = rng.randint(1, 3) if o.generic else 0
+    o.alpha, o.beta, o.kappa = ut_params(rng)
+    o.steps = 1 if rng.random() < 0.45 else rng.randint(2, 4)
+    o.exo = int(kind == "predict" and not o.generic and rng.random() < 0.4)
+    o.online = rng.randint(0, 1) if (kind == "correct" and o.generic) else 0
+    o.intrude = int(rng.random() < 0.3)
+    # how the object under test was obtained: constructed, move-constructed from a fresh / a used object, (UKFPrediction) move-assigned
+    o.lifetime = rng.choice(["fresh"] * 6 + ["moved"] * 2 + ["moved_after_use"] * 2 + (["assigned", "assigned_after_use"] if kind == "predict" else []))
+    o.target_generic = rng.randint(0, 1)      # constructor of the object that is move-assigned to (lifetime = assigned*)
+    # physical units.  Homogeneous: state in units of L (means L, covariances L^2; F, B unchanged because the noise
+    # inputs are measured in the state's unit times rho), measurement in units of e (y e, R e^2, H e/L): the steps are
+    # homogeneous, conditioning is unchanged, so tolerances are carried by the same factors.  Circular rows are radians.
+    o.L = 10.0 ** rng.uniform(-5, 4) if (o.circ == 0 and rng.random() < 0.4) else 1.0
+    o.e = 10.0 ** rng.uniform(-3, 3) if rng.random() < 0.3 else 1.0
+    o.rho = 10.0 ** rng.uniform(-1.5, 1.5) if (o.generic and rng.random() < 0.3) else 1.0
+    # coordinate-wise factors (not homogeneous: they enter the conditioning, tolerances are norm-based)
+    o.kx = factors(rng, 5)
+    if o.circ:
+        o.kx[o.n - o.circ:o.n] = 1.0
+    o.jy = factors(rng, 3)
+    return o
+
+
+def c_of(o, n, q):
+    return o.alpha ** 2 * (n + q + o.kappa)
+
+
+def state_model(rng, o, prev, keep):
+    """unit-free (coordinate factors and rho included) F, B, Q, exo c of a call; keep in {None, 'F', 'Q', 'all'}"""
+    n, q, circ = o.n, o.q, o.circ
+    K = np.diag(o.kx[:n]); Ki = np.diag(1.0 / o.kx[:n])
+    if keep == "all":
+        return dict(prev)
+    d = {}
+    if keep == "F":
+        d["F"], d["B"], d["fk"], d["bk"] = prev["F"], prev["B"], prev["fk"], prev["bk"]
+    else:
         fk = rng.choice(["random", "random", "singular", "identity"])
         F = gen.matrix(rng, n, n) if fk == "random" else (np.eye(n) if fk == "identity" else gen.matrix(rng, n, 1) @ gen.matrix(rng, 1, n))
-        path = rng.choice(["step"] * 8 + ["skip_pred", "skip_state"])
-        if generic:
+        if circ and o.regime == "euler":
+            # linear rows do not read circular rows; circular rows read circular rows with integer coefficients
+            F = F.copy(); l = n - circ
+            F[:l, l:] = 0.0
+            Z = np.diag([float(rng.choice([1, 1, 1, -1])) for _ in range(circ)])
+            if circ == 2 and rng.random() < 0.4:
+                Z[0, 1] = float(rng.choice([-1, 1, 2])); Z[1, 0] = float(rng.choice([0, 0, 1]))
+            F[l:, l:] = Z
+        F = K @ F @ Ki
+        if o.generic:
             B, bk = rect(rng, n, q)
-            Q = gen.psd(rng, q, rng.choice([q, q, max(0, q - 1)]))
-            A = np.hstack([F, B])
+            B = K @ B / o.rho
         else:
             B, bk = np.zeros((n, 0)), "none"
-            Q = gen.psd(rng, n, rng.choice([n, n, max(0, n - 1), 0]))
-            A = F
-        scale = max(1.0, np.linalg.norm(F, 2) ** 2 * max(np.linalg.norm(P, 2) for P in covs) + np.linalg.norm(Q, 2) * max(1.0, np.linalg.norm(B, 2) ** 2 if B.size else 1.0))
-        meta.update({"mkind": fk + "/" + bk, "path": path, "singular": sing, "wmag": "%.4g" % wmag(alpha, beta, kappa, n + q), "cond": "%.3g" % scale})
-        c.meta = meta
-        exo = (not generic) and rng.random() < 0.4       # constant exogenous input on both state models
-        out_shape = rng.choice([0, 0, 1, 2])            # output object of another shape (it is assigned as a whole)
-        meta["exo"] = int(exo); meta["out_shape"] = out_shape
-        c.int("skip_pred", int(path == "skip_pred")).int("skip_state", int(path == "skip_state")).int("out_shape", out_shape)
-        if exo:
-            c.mat_shape("exo_c", n, 1, gen.matrix(rng, n, 1, 3.0))
-        c.mat_shape("F", n, n, F).mat_shape("B", n, q, B).mat_shape("A", n, n + q, A).mat_shape("Q", Q.shape[0], Q.shape[0], Q)
-        c.mat_shape("means", n, comps, means).mat_shape("covs", n, n * comps, np.hstack(covs)).mat_shape("weights", comps, 1, w)
-        return c
+        d["F"], d["B"], d["fk"], d["bk"] = F, B, fk, bk
+    if keep == "Q":
+        d["Q"] = prev["Q"]
+    elif o.generic:
+        d["Q"] = gen.psd(rng, q, rng.choice([q, q, max(0, q - 1)])) * o.rho ** 2
+    else:
+        d["Q"] = K @ gen.psd(rng, n, rng.choice([n, n, n, max(0, n - 1), 0])) @ K
+    if circ and o.generic:
+        # the noise inputs alone must leave room on the circular output rows (spread below half a turn, variance below 2)
+        lim = 0.7 * min(PI ** 2 / c_of(o, n, q), 2.0)
+        B = d["B"].copy()
+        for i in range(n - circ, n):
+            v = float(B[i] @ d["Q"] @ B[i])
+            if v > 0.25 * lim:
+                B[i] *= math.sqrt(0.25 * lim / v) * rng.uniform(0.3, 1.0)
+        d["B"] = B
+    if o.exo:
+        d["exo"] = prev["exo"] if (keep in ("F", "Q") and prev is not None and rng.random() < 0.5) else K @ gen.matrix(rng, n, 1, 3.0)
+    return d
+
+
+def belief(rng, o, n, comps, kind):
+    """unit-free means / covariances of a belief with o.circ circular rows at the end"""
+    K = np.diag(o.kx[:n])
+    means = K @ gen.matrix(rng, n, comps, 3.0)
+    if o.circ:
+        for j in range(n - o.circ, n):
+            for i in range(comps):
+                means[j, i] = rng.uniform(-2.0, 2.0) if o.regime == "nowrap" else rng.uniform(-4.0, 4.0)
     covs, cond, sing = [], 1.0, 0
     for i in range(comps):
-        pk = rng.choice(["spd", "spd", "spd", "rankdef", "zero"])
-        if pk == "spd":
-            P, cd = gen.spd(rng, n, 10 ** rng.uniform(0, 4)); cond = max(cond, cd)
-        else:
-            rank = max(0, n - 1) if pk == "rankdef" else 0      # S = H P H^T + R stays SPD through R
+        if kind == "predict":
+            rank = rng.choice([n, n, n, max(0, n - 1), 0])
             P = gen.psd(rng, n, rank); sing = max(sing, n - rank)
-        covs.append(P)
-    H, hk = gen.measurement_matrix(rng, m, n)
-    path = rng.choice(["step"] * 10 + ["skip", "no_measurement", "fail"])
-    if generic:
-        D, dk = gen.matrix(rng, m, q), "random"
-        Rv, condR = gen.spd(rng, q, 10 ** rng.uniform(0, 2))
-        R = Rv; Reff = D @ Rv @ D.T
-        A = np.hstack([H, D])
+        else:
+            pk = rng.choice(["spd", "spd", "spd", "rankdef", "zero"])
+            if pk == "spd":
+                P, cd = gen.spd(rng, n, 10 ** rng.uniform(0, 4))
+            else:
+                rank = max(0, n - 1) if pk == "rankdef" else 0      # S = H P H^T + R stays SPD through R
+                P = gen.psd(rng, n, rank); sing = max(sing, n - rank)
+        covs.append(K @ P @ K)
+    w = np.array([rng.random() + 0.1 for _ in range(comps)]); w = w / w.sum()
+    return means, covs, w, sing
+
+
+def fit_circular(rng, o, n, q, means, covs, Am=None, noise_out=None):
+    """scales each covariance so that the circular rows stay in the regime where the unscented transform of a linear
+    map is exact (Properties_C03_Real.v: small_cov): c P_jj < pi^2 on circular input rows, c (A P A^T)_ii < pi^2 and
+    (A P A^T)_ii < 2 on circular output rows; regime nowrap: |m_j| + sqrt(c P_jj) < pi.  Margins 0.6 .. 0.9."""
+    if not o.circ:
+        return covs
+    c = c_of(o, n, q)
+    out = []
+    for i, P in enumerate(covs):
+        t = 1.0
+        for j in range(n - o.circ, n):
+            if P[j, j] > 0:
+                t = min(t, 0.6 * PI ** 2 / (c * P[j, j]))
+                if o.regime == "nowrap":
+                    room = 0.9 * PI - abs(means[j, i])
+                    t = min(t, room * room / (c * P[j, j]))
+        if Am is not None:
+            lim = 0.7 * min(PI ** 2 / c, 2.0)
+            S = Am[:, :n] @ P @ Am[:, :n].T
+            for r in range(n - o.circ, n):
+                room = lim - (noise_out[r] if noise_out is not None else 0.0)
+                if S[r, r] > 0:
+                    t = min(t, max(room, 0.0) / S[r, r])
+        if t < 1.0:
+            t *= rng.uniform(0.3, 1.0)
+        out.append(P * t)
+    return out
+
+
+def predict_step(rng, o, prev, how):
+    n, q = o.n, o.q
+    keep = None
+    if prev is not None:
+        if how in ("same", "movector"):
+            keep = "all"
+        else:
+            r = rng.random()
+            keep = None if r < 0.55 else ("F" if r < 0.8 else "Q")
+    mdl = state_model(rng, o, prev["mdl"] if prev else None, keep)
+    comps = prev["comps"] if (prev is not None and rng.random() < 0.7) else rng.randint(1, 3)
+    if prev is not None and comps == prev["comps"] and rng.random() < 0.12:
+        means, covs, w, sing = prev["means"], prev["covs"], prev["w"], prev["sing"]      # the very same belief again
     else:
-        D, dk = np.zeros((m, 0)), "none"
-        R, condR = gen.spd(rng, m, 10 ** rng.uniform(0, 3)); Reff = R
-        A = H
-    condS = max(np.linalg.cond(H @ P @ H.T + Reff) for P in covs)
-    y = gen.matrix(rng, m, 1, 5.0)
-    old_comps = comps + rng.choice([0, 0, 1])
-    old_w = np.array([0.125] * old_comps)
-    mnoise = rng.choice([0, 0, 1, 2])      # noise components declared by the measurement description
-    meta.update({"m": m, "mkind": hk + "/" + dk, "path": path, "rankH": int(np.linalg.matrix_rank(H)), "singular": sing, "mnoise": mnoise,
-                 "wmag": "%.4g" % wmag(alpha, beta, kappa, n + q), "cond": "%.3g" % max(cond, condS, np.linalg.cond(Reff))})
-    c.meta = meta
-    c.int("mnoise", mnoise)
-    c.int("m", m).int("skip", int(path == "skip")).int("have_y", int(path != "no_measurement")).int("fail", int(path == "fail")).int("online", rng.randint(0, 1))
-    c.mat_shape("H", m, n, H).mat_shape("D", m, q, D).mat_shape("A", m, n + q, A).mat_shape("R", R.shape[0], R.shape[0], R).mat_shape("y", m, 1, y)
-    c.mat_shape("means", n, comps, means).mat_shape("covs", n, n * comps, np.hstack(covs)).mat_shape("weights", comps, 1, w)
-    c.mat_shape("old_means", n, old_comps, gen.matrix(rng, n, old_comps, 7.0)).mat_shape("old_covs", n, n * old_comps, gen.matrix(rng, n, n * old_comps, 2.0))
-    c.mat_shape("old_weights", old_comps, 1, old_w)
-    warm = rng.randint(0, 1)
-    c.meta["warm"] = warm
-    c.int("warm", warm).mat_shape("y0", m, 1, gen.matrix(rng, m, 1, 5.0))
+        means, covs, w, sing = belief(rng, o, n, comps, "predict")
+    F, B, Q = mdl["F"], mdl["B"], mdl["Q"]
+    A = np.hstack([F, B]) if o.generic else F
+    if o.circ:
+        noise_out = [float(B[i] @ Q @ B[i]) if o.generic else 0.0 for i in range(n)]
+        covs = fit_circular(rng, o, n, q, means, covs, A, noise_out)
+    if o.generic:
+        scale = norm2(A) ** 2 * max(norm2(blockdiag(P, Q)) for P in covs)
+        scale = max(scale, norm2(F) ** 2 * max(norm2(P) for P in covs) + norm2(Q) * max(1.0, norm2(B) ** 2))
+    else:
+        scale = norm2(F) ** 2 * max(norm2(P) for P in covs) + norm2(Q)
+    path = rng.choice(["step"] * 8 + ["skip_pred", "skip_state"])
+    return dict(mdl=mdl, comps=comps, means=means, covs=covs, w=w, sing=sing, A=A, path=path, cond=max(1.0, scale),
+                out_shape=rng.choice([0, 0, 1, 2]), mkind=mdl["fk"] + "/" + mdl["bk"], how=how, n=n, q=q, m=0)
+
+
+def meas_model(rng, o, n, q, m, prev, keep):
+    K = np.diag(1.0 / o.kx[:n]); J = np.diag(o.jy[:m])
+    if keep == "all":
+        return dict(prev)
+    d = {}
+    if keep == "H":
+        d["H"], d["D"], d["hk"] = prev["H"], prev["D"], prev["hk"]
+    else:
+        H, hk = gen.measurement_matrix(rng, m, n)
+        if o.circ and o.regime == "euler":
+            H = H.copy(); H[:, n - o.circ:] = 0.0        # the (linear) measurement does not read circular rows
+        d["H"], d["hk"] = J @ H @ K, hk
+        d["D"] = J @ gen.matrix(rng, m, q) / o.rho if o.generic else np.zeros((m, 0))
+    if keep == "R":
+        d["R"] = prev["R"]
+    elif o.generic:
+        d["R"] = gen.spd(rng, q, 10 ** rng.uniform(0, 2))[0] * o.rho ** 2
+    else:
+        d["R"] = J @ gen.spd(rng, m, 10 ** rng.uniform(0, 3))[0] @ J
+    return d
+
+
+def correct_step(rng, o, prev, how, path):
+    n, q = (prev["n"], prev["q"]) if prev else (o.n, o.q)
+    m = prev["m"] if prev else rng.randint(1, 3)
+    keep = None
+    if prev is not None:
+        if how in ("same", "movector"):
+            keep = "all"
+        else:
+            r = rng.random()
+            if r < 0.25:
+                m = rng.randint(1, 3)                        # another measurement size
+                if o.online and o.circ == 0 and rng.random() < 0.5:
+                    q = rng.randint(1, 3)                    # update_weights_online: the input description may change
+                    if rng.random() < 0.4:
+                        n = rng.randint(1, 5)
+            elif r < 0.6:
+                keep = None
+            else:
+                keep = "H" if r < 0.8 else "R"
+    if o.generic and q < m:
+        # D (m x q) of full row rank, so that D Rv D^T is SPD for the equivalent Kalman step
+        if prev is None or o.online and o.circ == 0:
+            q = rng.randint(m, 3)
+        else:
+            m = rng.randint(1, q)
+        if keep in ("H", "R"):
+            keep = None
+    if prev is not None and (m != prev["m"] or n != prev["n"] or q != prev["q"]):
+        keep = None
+    mdl = meas_model(rng, o, n, q, m, prev["mdl"] if prev else None, keep)
+    comps = prev["comps"] if (prev is not None and n == prev["n"] and rng.random() < 0.7) else rng.randint(1, 3)
+    if prev is not None and comps == prev["comps"] and n == prev["n"] and rng.random() < 0.12:
+        means, covs, w, sing = prev["means"], prev["covs"], prev["w"], prev["sing"]
+    else:
+        means, covs, w, sing = belief(rng, o, n, comps, "correct")
+    covs = fit_circular(rng, o, n, q, means, covs)
+    H, D, R = mdl["H"], mdl["D"], mdl["R"]
+    Reff = D @ R @ D.T if o.generic else R
+    A = np.hstack([H, D]) if o.generic else H
+    cond = np.linalg.cond(Reff)
+    for P in covs:
+        S = H @ P @ H.T + Reff
+        ev = np.linalg.eigvalsh((S + S.T) / 2)
+        cond = max(cond, np.linalg.cond(S))
+        # rounding of the unscented sums relative to what is inverted: |[H D]|^2 |blockdiag(P, Rv)| / lambda_min(S)
+        Pa = blockdiag(P, R) if o.generic else P
+        cond = max(cond, (norm2(A) ** 2 * norm2(Pa) + (0.0 if o.generic else norm2(R))) / max(ev[0], 1e-300))
+        if np.linalg.matrix_rank(P) == n and n > 0:
+            cond = max(cond, np.linalg.cond(P))
+    J = np.diag(o.jy[:m])
+    y = J @ gen.matrix(rng, m, 1, 5.0)
+    alias = int(rng.random() < 0.08)          # correct(g, g): the output object is the input object
+    old_comps = comps if alias else comps + rng.choice([0, 0, 1])
+    Kx = np.diag(o.kx[:n])
+    return dict(mdl=mdl, comps=comps, means=means, covs=covs, w=w, sing=sing, A=A, path=path, cond=max(1.0, cond), m=m, n=n, q=q,
+                y=y, old_comps=old_comps, old_means=Kx @ gen.matrix(rng, n, old_comps, 7.0), old_covs=gen.matrix(rng, n, n * old_comps, 2.0),
+                mnoise=rng.choice([0, 0, 1, 2]), mkind=mdl["hk"] + "/" + ("random" if o.generic else "none"), how=how,
+                rankH=int(np.linalg.matrix_rank(H)), alias=alias)
+
+
+PRED_HOWS = ["same", "set", "set", "time", "time", "moveassign", "movector", "movector+set"]
+CORR_HOWS = ["same", "set", "set", "set", "movector", "movector+set"]
+
+
+def gen_case(rng, k):
+    kind = rng.choice(["predict", "correct", "correct"])
+    o = draw_object(rng, kind)
+    st = []
+    for t in range(o.steps):
+        how = "first" if t == 0 else rng.choice(PRED_HOWS if kind == "predict" else CORR_HOWS)
+        if kind == "predict":
+            st.append(predict_step(rng, o, st[-1] if st else None, how))
+        else:
+            path = rng.choice(["step"] * 10 + ["skip", "no_measurement", "fail", "fail_innov"])
+            if path == "skip" and t > 0:
+                how = "same"        # a skipped correction does not consult the model; its sizes are those of the kept state
+            st.append(correct_step(rng, o, st[-1] if st else None, how, path))
+            if t == 0:
+                o.q = st[0]["q"]      # generic: q >= m of the first call
+    return build_case(k, o, st)
+
+
+def build_case(k, o, st):
+    L, e = o.L, o.e
+    meta = {"kind": o.kind, "generic": o.generic, "n": o.n, "circ": o.circ, "regime": o.regime, "q": o.q, "steps": o.steps,
+            "alpha": "%.4g" % o.alpha, "beta": "%.4g" % o.beta, "kappa": "%.4g" % o.kappa, "exo": o.exo, "online": o.online,
+            "intrude": o.intrude, "lifetime": o.lifetime, "L": repr(L), "e": repr(e), "rho": "%.3g" % o.rho,
+            "kx": "%.3g" % (max(o.kx[:o.n]) / min(o.kx[:o.n])), "comps": max(s["comps"] for s in st),
+            "hows": ",".join(s["how"] for s in st), "paths": ",".join(s["path"] for s in st),
+            "shapes": ",".join("%d:%d:%d:%d" % (s["n"], s["q"], s["m"], s["comps"]) for s in st),
+            "conds": ",".join("%.3g" % s["cond"] for s in st), "mkinds": ",".join(s["mkind"] for s in st),
+            "singular": max(s["sing"] for s in st), "alias": max(s.get("alias", 0) for s in st)}
+    c = caseio.Case(k, o.kind, meta)
+    c.int("n", o.n).int("circ", o.circ).int("q", o.q).int("generic", o.generic).int("nsteps", o.steps).int("intrude", o.intrude)
+    c.int("online", o.online)
+    if o.lifetime.startswith("assigned"):
+        c.int("target_generic", o.target_generic)
+    c.mat("params", np.array([[o.alpha, o.beta, o.kappa]]))
+    c.word("hows", [s["how"] for s in st])
+    for t, s in enumerate(st):
+        x = "_s%d" % t
+        n, q, comps = s["n"], s["q"], s["comps"]
+        mdl = s["mdl"]
+        c.mat_shape("means" + x, n, comps, s["means"] * L).mat_shape("covs" + x, n, n * comps, np.hstack(s["covs"]) * L * L)
+        c.mat_shape("weights" + x, comps, 1, s["w"])
+        if o.kind == "predict":
+            c.int("skip_pred" + x, int(s["path"] == "skip_pred")).int("skip_state" + x, int(s["path"] == "skip_state")).int("out_shape" + x, s["out_shape"])
+            if o.exo:
+                c.mat_shape("exo_c" + x, n, 1, mdl["exo"] * L)
+            Q = mdl["Q"] * L * L
+            c.mat_shape("F" + x, n, n, mdl["F"]).mat_shape("B" + x, n, q, mdl["B"]).mat_shape("A" + x, n, n + q, s["A"])
+            c.mat_shape("Q" + x, Q.shape[0], Q.shape[0], Q)
+        else:
+            m = s["m"]
+            c.int("n" + x, n).int("q" + x, q).int("m" + x, m).int("mnoise" + x, s["mnoise"]).int("alias" + x, s["alias"])
+            c.int("skip" + x, int(s["path"] == "skip")).int("have_y" + x, int(s["path"] != "no_measurement")).int("fail" + x, int(s["path"] == "fail")).int("fail_innov" + x, int(s["path"] == "fail_innov"))
+            H, D = mdl["H"] * (e / L), mdl["D"] * (e / L)
+            R = mdl["R"] * (L * L if o.generic else e * e)
+            c.mat_shape("H" + x, m, n, H).mat_shape("D" + x, m, q, D).mat_shape("A" + x, m, n + q, np.hstack([H, D]) if o.generic else H)
+            c.mat_shape("R" + x, R.shape[0], R.shape[0], R).mat_shape("y" + x, m, 1, s["y"] * e)
+            oc = s["old_comps"]
+            c.mat_shape("old_means" + x, n, oc, s["old_means"] * L).mat_shape("old_covs" + x, n, n * oc, s["old_covs"] * L * L)
+            c.mat_shape("old_weights" + x, oc, 1, np.array([0.125 + 0.0625 * i for i in range(oc)]))
     return c
 
 
@@ -149,15 +430,55 @@ def generate(rng, tier):
 
 def nontrivial(c):
     m = c.meta
-    if int(m["comps"]) >= 2 or int(m["generic"]) or m["path"] != "step" or "rankdef" in m["mkind"] or "zero" in m["mkind"] or "singular" in m["mkind"] or int(m.get("singular", 0)):
-        return (m["kind"], m["generic"], m["n"], m.get("m", "-"), m["q"], m["comps"], m["mkind"], m["path"], m.get("warm", "-"), m.get("mnoise", "-"), m.get("exo", "-"), m.get("singular", "-"))
+    paths = m["paths"].split(",")
+    if (int(m["steps"]) > 1 or int(m["comps"]) >= 2 or int(m["generic"]) or any(p != "step" for p in paths) or "rankdef" in m["mkinds"]
+            or "zero" in m["mkinds"] or "singular" in m["mkinds"] or int(m.get("singular", 0)) or int(m["circ"]) or m.get("lifetime", "fresh") != "fresh"):
+        return (m["kind"], m["generic"], m["n"], m["circ"], m["regime"], m["q"], m["steps"], m["hows"], m["paths"], m["shapes"], m["mkinds"], m["exo"], m["online"], m["singular"], m.get("lifetime", "fresh"))
     return None
 
 
-def tol(c, mag, r=1e-7):
-    """rtol * cond (conditioning of the innovation covariance / size of F P F^T + Q) plus the rounding
-    amplification of the unscented sums, 1e-12 * max|weight|"""
-    return (r * float(c.meta["cond"]) + 1e-12 * float(c.meta["wmag"])) * max(1.0, mag)
+# --------------------------------------------------------------------------------------------------------------
+# per-call views
+def step_shapes(c):
+    return [tuple(int(v) for v in x.split(":")) for x in c.meta["shapes"].split(",")]
+
+
+class Step:
+    """call t of a case: sizes, path, conditioning, units, and field access with the call's suffix"""
+
+    def __init__(self, c, t):
+        m = c.meta
+        self.c, self.t, self.x = c, t, "_s%d" % t
+        self.n, self.q, self.m, self.comps = step_shapes(c)[t]
+        self.path = m["paths"].split(",")[t]
+        self.how = m["hows"].split(",")[t]
+        self.cond = float(m["conds"].split(",")[t])
+        self.circ = int(m["circ"])
+        self.L = float(m["L"])
+        self.wmag = wmag(float(m["alpha"]), float(m["beta"]), float(m["kappa"]), self.n + self.q)
+        self.generic = int(m["generic"])
+
+    def op(self, name):
+        return self.c.get(name + self.x)
+
+    def f(self, rec, name):
+        return None if rec is None else rec.get(name + self.x)
+
+    def unit(self, field):
+        return self.L if "mean" in field else self.L * self.L
+
+    def tol(self, field, mag_unitfree, r):
+        """(r * cond (conditioning of the innovation covariance / size of F P F^T + Q) + the rounding amplification of the
+        unscented sums, 1e-12 * max|weight|) * magnitude, computed in unit-free terms and carried by the homogeneous unit"""
+        return (r * self.cond + 1e-12 * self.wmag) * max(1.0, mag_unitfree) * self.unit(field)
+
+    def diff(self, field, a, b):
+        """|a - b|, modulo a full turn on the circular rows of a mean"""
+        d = np.abs(np.asarray(a, dtype=float) - np.asarray(b, dtype=float))
+        if self.circ and "mean" in field and d.ndim == 2 and d.shape[0] == self.n:
+            for j in range(self.n - self.circ, self.n):
+                d[j] = np.abs((d[j] + PI) % (2 * PI) - PI)
+        return d
 
 
 def comp_fields(k):
@@ -167,108 +488,169 @@ def comp_fields(k):
     return out
 
 
+def close_in(s, field, a, b, r):
+    """returns None if a ~ b within the call's tolerance, else (maxdiff, tol)"""
+    if a is None or b is None or np.shape(a) != np.shape(b):
+        return (math.inf, 0.0)
+    if not (np.all(np.isfinite(a)) and np.all(np.isfinite(b))):
+        return None if np.array_equal(a, b, equal_nan=True) else (math.inf, 0.0)
+    mag = (float(np.max(np.abs(b))) if np.size(b) else 1.0) / s.unit(field)
+    t = s.tol(field, mag, r)
+    d = s.diff(field, a, b)
+    md = float(np.max(d)) if d.size else 0.0
+    return None if md <= t else (md, t)
+
+
 def compare(c, impl, model):
-    d = caseio.compare_fields(impl, model, ["components"], 0, 0)
-    k = impl.get("components")
-    if d:
-        return d
-    for f in comp_fields(k) + ["kf_" + f for f in comp_fields(int(c.meta["comps"]))] + ["weights"]:
-        a, b = impl.get(f), model.get(f)
-        if a is None or b is None or a.shape != b.shape:
-            d.append("%s: missing or shape (impl %s, model %s)" % (f, None if a is None else a.shape, None if b is None else b.shape)); continue
-        t = tol(c, float(np.max(np.abs(a))) if a.size else 1.0, 1e-9)
-        if not caseio.close(a, b, t, 0):
-            d.append("%s: max|impl-model|=%.3g (tol %.3g)" % (f, caseio.maxdiff(a, b), t))
-    if c.kind == "correct":
-        d += caseio.compare_fields(impl, model, ["lik_valid"], 0, 0)
-        if impl.get("lik_valid") == 1 and model.get("lik_valid") == 1:
-            if not caseio.close(impl.get("lik"), model.get("lik"), 1e-300, 1e-9 * float(c.meta["cond"]) + 1e-12 * float(c.meta["wmag"])):
-                d.append("lik: impl %s model %s" % (impl.get("lik"), model.get("lik")))
-        for i in range(int(c.meta["comps"])):
-            if not caseio.close(impl.get("kf_lik%d" % i), model.get("kf_lik%d" % i), 1e-300, 1e-9 * float(c.meta["cond"])):
-                d.append("kf_lik%d: impl %r model %r" % (i, impl.get("kf_lik%d" % i), model.get("kf_lik%d" % i)))
+    d = []
+    for t in range(int(c.meta["steps"])):
+        s = Step(c, t)
+        ki, km = s.f(impl, "components"), s.f(model, "components")
+        if ki != km:
+            d.append("components%s: impl=%s model=%s" % (s.x, ki, km)); continue
+        for f in comp_fields(ki) + ["kf_" + f for f in comp_fields(s.comps)] + ["weights"]:
+            a, b = s.f(impl, f), s.f(model, f)
+            if a is None or b is None or a.shape != b.shape:
+                d.append("%s%s: missing or shape (impl %s, model %s)" % (f, s.x, None if a is None else a.shape, None if b is None else b.shape)); continue
+            if f == "weights":
+                if not caseio.close(a, b, 1e-15, 0):
+                    d.append("weights%s: max|impl-model|=%.3g" % (s.x, caseio.maxdiff(a, b)))
+                continue
+            bad = close_in(s, f, a, b, R_MODEL)
+            if bad:
+                d.append("%s%s: max|impl-model|=%.3g (tol %.3g)" % (f, s.x, bad[0], bad[1]))
+        if c.kind == "correct":
+            if s.f(impl, "lik_valid") != s.f(model, "lik_valid"):
+                d.append("lik_valid%s: impl=%s model=%s" % (s.x, s.f(impl, "lik_valid"), s.f(model, "lik_valid")))
+            elif s.f(impl, "lik_valid") == 1:
+                if not caseio.close(s.f(impl, "lik"), s.f(model, "lik"), 1e-300, R_MODEL * s.cond + 1e-12 * s.wmag):
+                    d.append("lik%s: impl %s model %s" % (s.x, s.f(impl, "lik"), s.f(model, "lik")))
+            for i in range(s.comps):
+                if not caseio.close(s.f(impl, "kf_lik%d" % i), s.f(model, "kf_lik%d" % i), 1e-300, R_MODEL * s.cond):
+                    d.append("kf_lik%d%s: impl %r model %r" % (i, s.x, s.f(impl, "kf_lik%d" % i), s.f(model, "kf_lik%d" % i)))
     return d
 
 
 def oracle(c, impl, model):
-    """UKF output vs KF output of the implementation itself, same inputs."""
+    """UKF output vs KF output of the implementation itself, same inputs, at every call of the sequence."""
     v = []
     m = c.meta
-    comps = int(m["comps"]); path = m["path"]
-    sig = "C04:%s:%s" % (c.kind, "generic" if int(m["generic"]) else "additive")
-    if impl.get("input_unchanged") != 1:
-        v.append((sig + ":input-modified", "the input belief was modified"))
-    means, covs, n = c.get("means"), c.get("covs"), int(m["n"])
-    if path != "step":
-        # early-return paths hand back the input belief
-        if impl.get("components") != comps:
-            v.append((sig + ":%s:component-count" % path, "%s components" % impl.get("components"))); return v
+    base = "C04:%s:%s" % (c.kind, "generic" if int(m["generic"]) else "additive")
+    prev_lik = None        # what getLikelihood reported after the previous call (None: nothing)
+    lifetime = m.get("lifetime", "fresh")
+    if (impl.get("relocations") or 0) != (0 if lifetime == "fresh" else 1):
+        v.append(("C04:harness:object-not-relocated", "lifetime=%s but %s relocation(s)" % (lifetime, impl.get("relocations"))))
+    for t in range(int(m["steps"])):
+        s = Step(c, t)
+        comps, n, path = s.comps, s.n, s.path
+        later = "" if t == 0 else ":later-call-on-same-object"
+        sig = base
+        where = "call %d (%s%s%s): " % (t, s.how, "" if lifetime == "fresh" else ", object obtained as lifetime=" + lifetime,
+                                        ", a twin object runs inside every model callback" if int(m["intrude"]) else "")
+        if s.f(impl, "input_unchanged") != 1:
+            v.append((sig + ":input-modified" + later, where + "the input belief was modified"))
+        if int(m["intrude"]) and (s.f(impl, "intruder_calls") or 0) < 1 and path == "step":
+            v.append(("C04:harness:intruder-not-called", where + "no model callback ran during the step"))
+        means, covs = s.op("means"), s.op("covs")
+        lik_now = (s.f(impl, "lik").reshape(-1) if s.f(impl, "lik_valid") == 1 and s.f(impl, "lik") is not None else None) if c.kind == "correct" else None
+        if c.kind == "correct" and s.f(impl, "lik_requery_same") != 1:
+            v.append((sig + ":likelihood-changes-on-requery" + later, where + "a second getLikelihood() returned something else"))
+        if path != "step":
+            # early-return paths hand back the input belief
+            if s.f(impl, "components") != comps:
+                v.append((sig + ":%s:component-count%s" % (path, later), where + "%s components" % s.f(impl, "components")))
+                prev_lik = lik_now; continue
+            for i in range(comps):
+                if not (np.array_equal(s.f(impl, "mean%d" % i).reshape(-1), means[:, i]) and np.array_equal(s.f(impl, "cov%d" % i), covs[:, i * n:(i + 1) * n])):
+                    v.append((sig + ":%s:belief-changed%s" % (path, later), where + "component %d differs from the input belief" % i)); break
+            if c.kind == "correct" and path in ("no_measurement", "fail", "fail_innov") and s.f(impl, "lik_valid") != 0:
+                v.append((sig + ":%s:likelihood-without-correction%s" % (path, ":after-earlier-step" if t else ""),
+                          where + "a likelihood is reported after a correction that could not use the measurement"))
+            if c.kind == "correct" and path == "skip":
+                same = (lik_now is None and prev_lik is None) or (lik_now is not None and prev_lik is not None and np.array_equal(lik_now, prev_lik))
+                if not same:
+                    v.append((sig + ":skip:likelihood-state-touched" + later, where + "a skipped correction changed what getLikelihood reports (now %s, before %s)" % (lik_now, prev_lik)))
+            prev_lik = lik_now
+            continue
+        alias = c.kind == "correct" and c.has("alias" + s.x) and s.op("alias") == 1
+        exp_comps = comps if (c.kind == "predict" or alias) else s.op("old_means").shape[1]
+        if s.f(impl, "components") != exp_comps:
+            v.append((sig + ":component-count" + later, where + "%s components, expected %d" % (s.f(impl, "components"), exp_comps)))
+            prev_lik = lik_now; continue
         for i in range(comps):
-            if not (np.array_equal(impl.get("mean%d" % i).reshape(-1), means[:, i]) and np.array_equal(impl.get("cov%d" % i), covs[:, i * n:(i + 1) * n])):
-                v.append((sig + ":%s:belief-changed" % path, "component %d differs from the input belief" % i)); break
-        warm = int(m.get("warm", 0))
-        if c.kind == "correct" and path in ("no_measurement", "fail") and impl.get("lik_valid") != 0:
-            v.append((sig + ":%s:likelihood-without-correction%s" % (path, ":after-earlier-step" if warm else ""),
-                      "a likelihood is reported after a correction that could not use the measurement"))
-        if c.kind == "correct" and path == "skip" and impl.get("lik_valid") != warm:
-            v.append((sig + ":skip:likelihood-state-touched", "a skipped correction changed what getLikelihood reports (lik_valid %s, earlier step %d)" % (impl.get("lik_valid"), warm)))
-        return v
-    exp_comps = comps if c.kind == "predict" else c.get("old_means").shape[1]
-    if impl.get("components") != exp_comps:
-        v.append((sig + ":component-count", "%s components, expected %d" % (impl.get("components"), exp_comps))); return v
-    for i in range(comps):
-        for f in ("mean%d" % i, "cov%d" % i):
-            a, b = impl.get(f), impl.get("kf_" + f)
-            if a is None or b is None or a.shape != b.shape:
-                v.append((sig + ":missing-output", f)); continue
-            t = tol(c, float(np.max(np.abs(b))) if b.size else 1.0)
-            if not caseio.close(a, b, t, 0):
-                v.append((sig + ":ukf-differs-from-kf:%s:comp%s" % (f.rstrip("0123456789"), "0" if i == 0 else "k"),
-                          "component %d: max|ukf-kf| = %.3g (tol %.3g)" % (i, caseio.maxdiff(a, b), t)))
-    if c.kind == "predict":
-        if impl.get("dim") != n:
-            v.append((sig + ":output-shape", "predicted mixture has dimension %s, expected %d" % (impl.get("dim"), n)))
-        if not caseio.close(impl.get("weights").reshape(-1), np.full(comps, 1.0 / comps), 1e-15, 0):
-            v.append((sig + ":output-weights", "the predicted mixture does not carry the uniform weights of a fresh mixture"))
-    else:
-        # frame: weights of the output object and components beyond the predicted ones are untouched
-        if not np.array_equal(impl.get("weights").reshape(-1), c.get("old_weights").reshape(-1)):
-            v.append((sig + ":output-weights-written", "weights of the output object changed"))
-        om, oc = c.get("old_means"), c.get("old_covs")
-        for i in range(comps, exp_comps):
-            if not (np.array_equal(impl.get("mean%d" % i).reshape(-1), om[:, i]) and np.array_equal(impl.get("cov%d" % i), oc[:, i * n:(i + 1) * n])):
-                v.append((sig + ":frame", "component %d of the output object (beyond the predicted ones) was written" % i))
-        if impl.get("lik_valid") != 1:
-            v.append((sig + ":likelihood-missing", "no likelihood after a correction"))
+            for f in ("mean%d" % i, "cov%d" % i):
+                a, b = s.f(impl, f), s.f(impl, "kf_" + f)
+                if a is None or b is None or a.shape != b.shape:
+                    v.append((sig + ":missing-output" + later, where + f)); continue
+                bad = close_in(s, f, a, b, R_ORACLE)
+                if bad:
+                    v.append((sig + ":ukf-differs-from-kf:%s:comp%s%s" % (f.rstrip("0123456789"), "0" if i == 0 else "k", later),
+                              where + "component %d: max|ukf-kf| = %.3g (tol %.3g)" % (i, bad[0], bad[1])))
+        if c.kind == "predict":
+            if s.f(impl, "dim") != n:
+                v.append((sig + ":output-shape" + later, where + "predicted mixture has dimension %s, expected %d" % (s.f(impl, "dim"), n)))
+            if s.f(impl, "dim_circular") != s.circ:
+                v.append((sig + ":output-layout" + later, where + "predicted mixture has %s circular rows, expected %d" % (s.f(impl, "dim_circular"), s.circ)))
+            if not caseio.close(s.f(impl, "weights").reshape(-1), np.full(comps, 1.0 / comps), 1e-15, 0):
+                v.append((sig + ":output-weights" + later, where + "the predicted mixture does not carry the uniform weights of a fresh mixture"))
         else:
-            lik = impl.get("lik").reshape(-1)
-            if len(lik) != comps:
-                v.append((sig + ":likelihood-size", "%d entries for %d components" % (len(lik), comps)))
+            # frame: weights of the output object and components beyond the predicted ones are untouched
+            if not np.array_equal(s.f(impl, "weights").reshape(-1), s.op("weights" if alias else "old_weights").reshape(-1)):
+                v.append((sig + ":output-weights-written" + later, where + "weights of the output object changed"))
+            om, oc = s.op("old_means"), s.op("old_covs")
+            for i in range(comps, exp_comps):
+                if not (np.array_equal(s.f(impl, "mean%d" % i).reshape(-1), om[:, i]) and np.array_equal(s.f(impl, "cov%d" % i), oc[:, i * n:(i + 1) * n])):
+                    v.append((sig + ":frame" + later, where + "component %d of the output object (beyond the predicted ones) was written" % i))
+            if lik_now is None:
+                v.append((sig + ":likelihood-missing" + later, where + "no likelihood after a correction"))
+            elif len(lik_now) != comps:
+                v.append((sig + ":likelihood-size" + later, where + "%d entries for %d components" % (len(lik_now), comps)))
             else:
                 for i in range(comps):
-                    kl = impl.get("kf_lik%d" % i)
-                    if not caseio.close(lik[i], kl, 1e-300, 1e-7 * float(m["cond"]) + 1e-12 * float(m["wmag"])):
-                        v.append((sig + ":likelihood-differs-from-kf:comp%s" % ("0" if i == 0 else "k"), "component %d: ukf %r kf %r" % (i, lik[i], kl)))
-    if model is not None and model.get("sqrt_residual", 0.0) > 1e-10:
+                    kl = s.f(impl, "kf_lik%d" % i)
+                    if not caseio.close(lik_now[i], kl, 1e-300, R_ORACLE * s.cond + 1e-12 * s.wmag):
+                        v.append((sig + ":likelihood-differs-from-kf:comp%s%s" % ("0" if i == 0 else "k", later), where + "component %d: ukf %r kf %r" % (i, lik_now[i], kl)))
+        prev_lik = lik_now
+    if model is not None and (model.get("sqrt_residual") or 0.0) > 1e-10:
         v.append(("C04:model-sqrt-oracle-contract", "residual %.3g" % model.get("sqrt_residual")))
     return v
 
 
 def histogram(cases):
     h = {}
-    for key in ("kind", "generic", "n", "m", "q", "comps", "path", "mkind", "warm", "mnoise", "exo", "out_shape", "singular"):
+    for key in ("kind", "generic", "n", "circ", "regime", "q", "steps", "comps", "exo", "online", "intrude", "lifetime", "alias", "singular"):
         hk = {}
         for c in cases:
             if key in c.meta:
                 hk[str(c.meta[key])] = hk.get(str(c.meta[key]), 0) + 1
         h[key] = hk
+    for key in ("hows", "paths", "mkinds"):
+        hk = {}
+        for c in cases:
+            for tok in c.meta[key].split(","):
+                hk[tok] = hk.get(tok, 0) + 1
+        h[key + "_per_call"] = hk
+    hk = {"same": 0, "changed": 0}
+    for c in cases:
+        sh = step_shapes(c)
+        for a, b in zip(sh, sh[1:]):
+            hk["same" if a == b else "changed"] += 1
+    h["shape_vs_previous_call"] = hk
+    for key, lab in (("L", "state_unit_decade"), ("e", "measurement_unit_decade")):
+        hk = {}
+        for c in cases:
+            d = str(gen.decade(float(c.meta[key])))
+            hk[d] = hk.get(d, 0) + 1
+        h[lab] = hk
     return h
 
 
 LEVEL_TEXT = ("Proof: the unscented prediction and correction models (additive-noise and generic/augmented constructors, slice offsets as in the code, "
               "state kept for the likelihood) are proved, for every real field, dimension, mixture, admissible (alpha, beta, kappa), PSD P_i and the "
               "square-root contract, to return on linear models exactly the Kalman prediction (F m, F P F^T + Q, resp. + B Q B^T) and the Kalman "
-              "correction of C01 (mean, covariance, innovation covariance, likelihood; R resp. D R D^T), component by component. Tied to the code by "
-              "running the extracted model, UKFPrediction/UKFCorrection and the implementation's own KFPrediction/KFCorrection on the same cases.")
+              "correction of C01 (mean, covariance, innovation covariance, likelihood; R resp. D R D^T), component by component, whatever an earlier call "
+              "left in the object (history independence). Tied to the code by running the extracted model, ONE UKFPrediction / UKFCorrection object over "
+              "sequences of calls with a changing model, and the implementation's own KFPrediction/KFCorrection on the same cases.")
 LEVEL_NOTE = ("Trusted: Coq kernel, MathComp, extraction + float driver (with its Jacobi oracle), list instance of the matrix interface, harness and tolerances; "
-              "rounding is not modelled; the tie to the code is sampled. Quaternion states/measurements are outside C04 (linear models).")
+              "rounding is not modelled; the tie to the code is sampled. Quaternion states/measurements are outside C04 (linear models); Euler-circular state rows "
+              "are covered on the check side only, in the regimes where C03's Euler exactness applies.")
